@@ -157,11 +157,8 @@ func (d *c18) readMsg(async bool, want c18Msg, label string) {
 	if async {
 		done := false
 		ws.AsyncNextMessage(buf, func(e error, nn int, t websocket.MessageType) { err, n, mt, done = e, nn, t, true })
-		for i := 0; !done; i++ {
-			if i > 400 {
-				c.Failf("message-never-delivered/"+label, "%s: the message the server sent was never delivered (async)", label)
-			}
-			d.pump()
+		if !d.waitFor(&done) {
+			c.Failf("message-never-delivered/"+label, "%s: the message the server sent was never delivered (async)", label)
 		}
 	} else {
 		func() {
